@@ -28,6 +28,6 @@ def gen(pid):
     return len(thms)
 
 if __name__ == "__main__":
-    ids = sys.argv[1:] or sorted(os.path.basename(f)[:-2] for f in glob.glob(os.path.join(ROOT, "theories", "Properties", "C*.v")))
+    ids = sys.argv[1:] or sorted(os.path.basename(f)[:-2] for f in glob.glob(os.path.join(ROOT, "theories", "Properties", "C*.v")))  # incl. secondary files such as C11_time
     for pid in ids:
         print(pid, gen(pid))
